@@ -1,13 +1,15 @@
 CONSTANTS
     MaxEpoch = 5
     MaxImm = 2
-    MaxRestarts = 3
+    MaxRestarts = 2
     MaxFaults = 3
-    MaxTurns = 2
+    MaxTurns = 1
     Others = {}
     RecOff = 1
     RetBack = 1
     NextOff = 0
+    RegParamsOff = 1
+    MaxFlips = 2
     MarkFirst = FALSE
     SaveFirst = FALSE
     ExcuseTurn <- ExcuseFromEnv
